@@ -113,6 +113,18 @@ func VerifSubscribe() {
 	defer cancel()
 	st := &v19Stream{ctx: ctx}
 	req := v19Request(subs, uint64(time.Second))
+	// param "pathless" = 1: one of the subscriptions (any position) may carry NO path - the
+	// server front-end only rejects an empty subscription LIST; 2 paths on another one
+	pathless := -1
+	if verifrt.Param("pathless", 0) == 1 {
+		pathless = verifrt.Choice("pathless", subs+1) - 1 // -1: none
+		if pathless >= 0 {
+			req.Subscription[pathless].Path = nil
+		}
+		if twice := verifrt.Choice("two-paths", subs+1) - 1; twice >= 0 && twice != pathless {
+			req.Subscription[twice].Path = append(req.Subscription[twice].Path, vPath(vPE("interface", "name", "lo1")))
+		}
+	}
 
 	// how the stream ends
 	cancelAfter := -1                     // -1: never by itself; 0: before the call; k: after k-1 sample rounds
@@ -124,6 +136,9 @@ func VerifSubscribe() {
 		cancelAfter = verifrt.Choice("cancel-after", ticks+2)
 	} else {
 		total := subs*entries + 1 + ticks*subs*entries
+		if verifrt.Param("pathless", 0) == 1 {
+			total = 2 // the number of Sends depends on the paths: fail at the first or the second Send
+		}
 		st.failAt = 1 + verifrt.Choice("fail-at", total)
 	}
 
